@@ -9,7 +9,15 @@ import "github.com/brewlin/net-protocol/protocol/header"
 // round-trip property becomes a postcondition. Contracts are in contracts_verif.go.
 
 // verifSynOptionsRoundTrip: the SYN options this stack encodes, parsed by its own parser.
-func verifSynOptionsRoundTrip(opts header.TCPSynOptions, isAck bool) header.TCPSynOptions {
+// layout selects which options are present (bit 0: timestamps, bit 1: SACK-permitted,
+// bit 2: window scale); the verifier proves the contract once per layout.
+func verifSynOptionsRoundTrip(layout int, mss uint16, ws int, tsVal, tsEcr uint32, isAck bool) header.TCPSynOptions {
+	opts := header.TCPSynOptions{MSS: mss, WS: -1, TSVal: tsVal, TSEcr: tsEcr}
+	opts.TS = layout&1 != 0
+	opts.SACKPermitted = layout&2 != 0
+	if layout&4 != 0 {
+		opts.WS = ws
+	}
 	b := makeSynOptions(opts)
 	return header.ParseSynOptions(b, isAck)
 }
